@@ -4,31 +4,22 @@
    defects q "applied"; with every switch off it is xv_exec_valid.  The driver classifies a disagreement between
    apollo-compiler and xv_exec_valid as KNOWN only if the verdict of xk_exec_valid with the switch(es) of listed
    classes agrees with apollo-compiler; so each class is exactly as wide as the modelled deviation.
-   These are not deliberate differences (those are xv_params); nothing here is part of the specification. *)
+   These are not deliberate differences (those are xv_params); nothing here is part of the specification.
+   Two further classes (variables and null items inside custom-scalar literals) were repaired in
+   validation/value.rs; their old definitions are at the end of the file, outside xk_defects. *)
 From ApolloVerif Require Import Base.Chars Ast.Ast Schema.Model Exec.Compat Exec.Valid.
 
 Record xk_defects := {
   (* D12d (validation/value.rs, Variable case): a variable nested inside a list or input-object literal is
      compared with the position only by the innermost named type, not by IsVariableUsageAllowed *)
   xk_nested_variable_by_named_type : bool;
-  (* validation/value.rs: variables inside an object literal written for a custom scalar are not visited, and
-     UndefinedVariable is only reported from there: an undefined variable used in such a place is not reported
-     (5.8.3).  (The sibling defect, a repeated field name nested in such an object, was repaired in /repo by
-     commit eaa4ebe.) *)
-  xk_defined_not_inside_scalar_object : bool;
-  (* validation/value.rs, List case: the items of a list literal written for a custom scalar are checked
-     against the scalar's own type reference, so `null` inside the list is rejected when that reference is
-     non-null (`j: JSON!`, value `[null]`); a custom scalar accepts any literal (3.5.6) *)
-  xk_null_item_in_scalar_list : bool;
   (* validation/operation.rs validate_subscription: root fields are counted through inline fragments and named
      fragments whatever their type conditions; CollectFields (6.3.2) skips a fragment whose type condition does
      not apply to the subscription root type *)
   xk_subscription_ignores_type_conditions : bool }.
 
 Definition xk_none : xk_defects :=
-  {| xk_nested_variable_by_named_type := false;
-     xk_defined_not_inside_scalar_object := false; xk_null_item_in_scalar_list := false;
-     xk_subscription_ignores_type_conditions := false |}.
+  {| xk_nested_variable_by_named_type := false; xk_subscription_ignores_type_conditions := false |}.
 
 (* 5.8.5 with the first defect *)
 Definition xk_r_variable_usages_allowed (q : xk_defects) (s : schema) (d : document) : bool :=
@@ -40,47 +31,7 @@ Definition xk_r_variable_usages_allowed (q : xk_defects) (s : schema) (d : docum
                                       | _, _ => true
                                       end) (xv_op_usages s (xv_frags d) o)) (xv_ops d).
 
-(* 5.8.3 with the second defect *)
-Definition xk_r_variables_defined (q : xk_defects) (s : schema) (d : document) : bool :=
-  forallb (fun o => forallb (fun u => (xk_defined_not_inside_scalar_object q && xu_in_scalar_object u)
-                                      || xv_is_some (xv_find_var (xu_name u) (xo_vars o)))
-                            (xv_op_usages s (xv_frags d) o)) (xv_ops d).
-
-(* 5.6.1 with the third defect: additionally reject a null item (at any list depth) of a list literal written
-   where a non-null custom scalar is expected *)
-Fixpoint xk_list_has_null (v : value) : bool :=
-  match v with
-  | VNull => true
-  | VList l => existsb xk_list_has_null l
-  | _ => false
-  end.
-Fixpoint xk_scalar_list_null (s : schema) (v : value) (t : ty) {struct v} : bool :=
-  match v with
-  | VList l =>
-      match t with
-      | TList i | TNonNullList i => existsb (fun x => xk_scalar_list_null s x i) l
-      | TNonNullNamed n => xv_custom_scalar s n && existsb xk_list_has_null l
-      | TNamed _ => false
-      end
-  | VObject fs =>
-      match xv_input_fields s (inner_named_type t) with
-      | Some defs =>
-          existsb (fun kv => match kv with
-                             | (k, x) => match xv_find_iv k defs with
-                                         | Some f => xk_scalar_list_null s x (iv_ty f)
-                                         | None => false
-                                         end
-                             end) fs
-      | None => false
-      end
-  | _ => false
-  end.
-Definition xk_r_values_correct_type (q : xk_defects) (s : schema) (d : document) : bool :=
-  xv_r_values_correct_type s d
-  && negb (xk_null_item_in_scalar_list q
-           && existsb (fun vt => xk_scalar_list_null s (fst vt) (snd vt)) (xv_typed_values s d)).
-
-(* 5.2.3.1 with the fourth defect *)
+(* 5.2.3.1 with the second defect *)
 Definition xk_r_subscription_single_root (q : xk_defects) (p : xv_params) (s : schema) (d : document) : bool :=
   forallb (xv_subscription_ok_gen (negb (xk_subscription_ignores_type_conditions q)) p s (xv_frags d)) (xv_ops d).
 
@@ -102,13 +53,13 @@ Definition xk_rule_vector (q : xk_defects) (p : xv_params) (s : schema) (d : doc
     xv_r_spread_target_defined s d;
     xv_r_no_fragment_cycles d;
     xv_r_spread_possible p s d;
-    xk_r_values_correct_type q s d;
+    xv_r_values_correct_type s d;
     xv_r_input_field_names s d;
     xv_r_input_field_unique s d;
     xv_r_input_required_fields s d;
     xv_r_variable_unique d;
     xv_r_variables_input_types s d;
-    xk_r_variables_defined q s d;
+    xv_r_variables_defined s d;
     xv_r_variables_used s d;
     xk_r_variable_usages_allowed q s d;
     xv_r_directives_defined s d;
@@ -120,12 +71,55 @@ Definition xk_rule_vector (q : xk_defects) (p : xv_params) (s : schema) (d : doc
 Definition xk_exec_valid (q : xk_defects) (p : xv_params) (s : schema) (d : document) : bool :=
   forallb (fun b => b) (xk_rule_vector q p s d).
 
-(* the switches by number, for the driver: 0..3 in the order of the record *)
+(* the switches by number, for the driver: 0..1 in the order of the record *)
 Definition xk_single (i : N) : xk_defects :=
-  {| xk_nested_variable_by_named_type := i =? 0;
-     xk_defined_not_inside_scalar_object := i =? 1; xk_null_item_in_scalar_list := i =? 2;
-     xk_subscription_ignores_type_conditions := i =? 3 |}.
+  {| xk_nested_variable_by_named_type := i =? 0; xk_subscription_ignores_type_conditions := i =? 1 |}.
 Definition xk_of_mask (m : list bool) : xk_defects :=
-  {| xk_nested_variable_by_named_type := nth 0 m false;
-     xk_defined_not_inside_scalar_object := nth 1 m false; xk_null_item_in_scalar_list := nth 2 m false;
-     xk_subscription_ignores_type_conditions := nth 3 m false |}.
+  {| xk_nested_variable_by_named_type := nth 0 m false; xk_subscription_ignores_type_conditions := nth 1 m false |}.
+
+(* ------------------------------------------------------------------------------------------------ *)
+(* Two former classes, repaired in validation/value.rs (fixes/fix-c17.patch); the deviations as they were, kept
+   only for the record (Props/C17.v: C17_scalar_literal_old_refuted).  Not part of xk_exec_valid, not extracted.
+
+   (1) undefined-variable-inside-custom-scalar-object: variables inside an object literal written for a custom
+   scalar were not visited, and UndefinedVariable is only reported from value.rs: an undefined variable used in
+   such a place was not reported (5.8.3).  value_of_correct_type now walks the literal
+   (undefined_nested_variables). *)
+Definition xk_old_r_variables_defined (s : schema) (d : document) : bool :=
+  forallb (fun o => forallb (fun u => xu_in_scalar_object u || xv_is_some (xv_find_var (xu_name u) (xo_vars o)))
+                            (xv_op_usages s (xv_frags d) o)) (xv_ops d).
+
+(* (2) null-item-in-list-for-non-null-custom-scalar: the items of a list literal written for a custom scalar were
+   checked against the scalar's own type reference, so `null` inside the list (at any list depth) was rejected
+   when that reference is non-null (`j: JSON!`, value `[null]`); a custom scalar accepts any literal (3.5.6).
+   The items are now checked against the nullable named type. *)
+Fixpoint xk_old_list_has_null (v : value) : bool :=
+  match v with
+  | VNull => true
+  | VList l => existsb xk_old_list_has_null l
+  | _ => false
+  end.
+Fixpoint xk_old_scalar_list_null (s : schema) (v : value) (t : ty) {struct v} : bool :=
+  match v with
+  | VList l =>
+      match t with
+      | TList i | TNonNullList i => existsb (fun x => xk_old_scalar_list_null s x i) l
+      | TNonNullNamed n => xv_custom_scalar s n && existsb xk_old_list_has_null l
+      | TNamed _ => false
+      end
+  | VObject fs =>
+      match xv_input_fields s (inner_named_type t) with
+      | Some defs =>
+          existsb (fun kv => match kv with
+                             | (k, x) => match xv_find_iv k defs with
+                                         | Some f => xk_old_scalar_list_null s x (iv_ty f)
+                                         | None => false
+                                         end
+                             end) fs
+      | None => false
+      end
+  | _ => false
+  end.
+Definition xk_old_r_values_correct_type (s : schema) (d : document) : bool :=
+  xv_r_values_correct_type s d
+  && negb (existsb (fun vt => xk_old_scalar_list_null s (fst vt) (snd vt)) (xv_typed_values s d)).
